@@ -19,7 +19,7 @@
   two's-complement value, `M w n = 2^BITS`, `repU` / `repS` = representable, `wrapU` / `wrapS` = the
   result reduced into the type's range.  Signed `MIN` is `-((M w n / 2 : Nat) : Int)` as in C03.
   Almost everything is a corollary of C01 / C02 / C03 / C05 / C06 / C08 / C17 (cited per theorem);
-  new proofs are in Lemmas/Panic.lean (`Panic.*`).
+  new proofs are in Lemmas/Panic.lean and Lemmas/C04Extra.lean (`Panic.*`).
 
   COVERAGE TABLE — every function the property names × the theorem(s) covering it
   ┌──────────────────────────────────────────────┬──────────────────────────────────────────────────┐
@@ -38,7 +38,9 @@
   │  `<<` `>>` (6 forms each) with u8 u16 u32    │ shift_prim_panics, shift_prim_rel_value,         │
   │    u64 u128 usize i8 i16 i32 i64 i128 isize  │   prim_types_twelve                              │
   │    U, I                                      │                                                  │
-  │  inherent `shl` / `shr` (ExpType) U, I       │ shift_inherent_panics                            │
+  │    value for an amount 0 ≤ k < BITS (both    │ shift_prim_in_range_value                        │
+  │    modes); release value for ANY amount      │ shift_rel_any_amount                             │
+  │  inherent `shl` / `shr` (ExpType) U, I       │ shift_inherent_panics, shift_rel_any_amount      │
   ├──────────────────────────────────────────────┼──────────────────────────────────────────────────┤
   │ panics in both build modes                   │                                                  │
   │  `/` `%` (6 forms each), inherent `div`,     │ u_div_rem_panics, i_div_rem_panics               │
@@ -99,6 +101,7 @@
   shifts: `BITS ≤ 2^32` and the amount's pattern `p < 2^t.bits`, as in C17.
 -/
 import Bnum.Lemmas.Panic
+import Bnum.Lemmas.C04Extra
 namespace Bnum.C04
 open Bnum Bnum.Ops
 
@@ -438,6 +441,63 @@ theorem shift_inherent_panics (w : Nat) (a : List Nat) (s : Nat) :
     rfl, rfl, rfl, rfl⟩
 example : UI.shl true 8 [1, 0, 0] 24 = .panic ∧ UI.shl false 8 [1, 0, 0] 24 = .ok [0, 0, 1] := by
   decide
+
+/-- the VALUE of `a << k` / `a >> k` for an amount of any primitive type with `0 ≤ k < BITS` (i.e.
+    whenever `shift_prim_panics` says the debug build does not panic): in BOTH build modes every
+    operator form returns the same well-formed `r`, the exact shift — `x·2^k mod 2^BITS` for `<<`
+    (on `BInt`: the pattern of `S a · 2^k`), `⌊x / 2^k⌋` for `>>` (zero-filling on `BUint`,
+    sign-propagating on `BInt`).  In particular debug and release builds agree wherever the debug
+    build does not panic.  (`Panic.shiftPrim_inRange`, from C17.shift_prim_dbg, C17.shift_prim_rel,
+    C05.u_inrange, C05.i_inrange; values: C05.shl_spec, i_shl_spec, u_shr_spec, i_shr_spec.) -/
+theorem shift_prim_in_range_value {w n : Nat} {a : List Nat} (hw : 1 ≤ w) (hn : 1 ≤ n)
+    (ha : WF w n a) (hB : w * n ≤ 2 ^ 32) (t : PrimTy) {p : Nat} (hp : p < B t.bits)
+    (h0 : 0 ≤ t.val p) (hlt : t.val p < ((w * n : Nat) : Int)) (dbg : Bool) :
+    (∃ r, (∀ f ∈ Panic.shlForms, f (buint w n) dbg t a p = .ok r) ∧ WF w n r ∧
+      U w r = (U w a * 2 ^ (t.val p).toNat) % M w n) ∧
+    (∃ r, (∀ f ∈ Panic.shrForms, f (buint w n) dbg t a p = .ok r) ∧ WF w n r ∧
+      U w r = U w a / 2 ^ (t.val p).toNat) ∧
+    (∃ r, (∀ f ∈ Panic.shlForms, f (bint w n) dbg t a p = .ok r) ∧ WF w n r ∧
+      U w r = wrapU (M w n) (S w a * 2 ^ (t.val p).toNat)) ∧
+    (∃ r, (∀ f ∈ Panic.shrForms, f (bint w n) dbg t a p = .ok r) ∧ WF w n r ∧
+      S w r = Int.fdiv (S w a) (2 ^ (t.val p).toNat)) := by
+  have hl := ha.1
+  subst hl
+  obtain ⟨e1, e2, e3, e4⟩ := Panic.shiftPrim_inRange t hp hB h0 hlt dbg
+  have hs := (Panic.amount_toNat h0 hlt hB).2
+  exact ⟨⟨_, fun f hf => by rw [Panic.shlForms_eq hf, e1], C05.shl_spec hw ha hs⟩,
+    ⟨_, fun f hf => by rw [Panic.shrForms_eq hf, e2], C05.u_shr_spec hw ha hs⟩,
+    ⟨_, fun f hf => by rw [Panic.shlForms_eq hf, e3], (C05.shl_spec hw ha hs).1,
+      C05.i_shl_spec hw ha hs⟩,
+    ⟨_, fun f hf => by rw [Panic.shrForms_eq hf, e4], C05.i_shr_spec hw hn ha hs⟩⟩
+example : 1 ≤ 8 ∧ 1 ≤ 3 ∧ WF 8 3 [1, 0, 128] ∧ 8 * 3 ≤ 2 ^ 32 ∧ (23 : Nat) < B PrimTy.i64.bits ∧
+    0 ≤ PrimTy.i64.val 23 ∧ PrimTy.i64.val 23 < ((8 * 3 : Nat) : Int) ∧
+    shr_vv (bint 8 3) true .i64 [1, 0, 128] 23 = .ok [255, 255, 255] ∧
+    shr_vv (bint 8 3) false .i64 [1, 0, 128] 23 = .ok [255, 255, 255] ∧
+    shlAssignRef (buint 8 3) false .i64 [1, 0, 128] 23 = .ok [0, 0, 128] := by decide
+
+/-- release builds, ANY amount `s` (every `u32`; the operators pass `k mod 2^32`:
+    `shift_prim_rel_value`): the inherent `shl` / `shr`, hence every operator form, and
+    `wrapping_shl` / `wrapping_shr` never panic and return a well-formed value — the in-range shift
+    by the reduced amount `Shift.effAmount BITS s < BITS` (`s` itself below `BITS`; for `s ≥ BITS`
+    the crate's `s & (BITS - 1)`, which is `s mod BITS` exactly at the power-of-two widths:
+    C05.effAmount_facts).  This is what the correspondence run checks where no property fixes the
+    value (Drive/C04 `anyValue`: any pattern, but not a panic).  `Panic.wrappingShift_wf`. -/
+theorem shift_rel_any_amount {w n : Nat} {a : List Nat} (hw : 1 ≤ w) (hn : 1 ≤ n) (ha : WF w n a)
+    (s : Nat) :
+    Shift.effAmount (w * n) s < w * n ∧ (s < w * n → Shift.effAmount (w * n) s = s) ∧
+    (UI.shl false w a s = .ok (UI.wrappingShl w a s) ∧ WF w n (UI.wrappingShl w a s) ∧
+      U w (UI.wrappingShl w a s) = (U w a * 2 ^ Shift.effAmount (w * n) s) % M w n) ∧
+    (UI.shr false w a s = .ok (UI.wrappingShr w a s) ∧ WF w n (UI.wrappingShr w a s) ∧
+      U w (UI.wrappingShr w a s) = U w a / 2 ^ Shift.effAmount (w * n) s) ∧
+    (II.shl false w a s = .ok (II.wrappingShl w a s) ∧ WF w n (II.wrappingShl w a s) ∧
+      U w (II.wrappingShl w a s) = (U w a * 2 ^ Shift.effAmount (w * n) s) % M w n) ∧
+    (II.shr false w a s = .ok (II.wrappingShr w a s) ∧ WF w n (II.wrappingShr w a s) ∧
+      S w (II.wrappingShr w a s) = Int.fdiv (S w a) (2 ^ Shift.effAmount (w * n) s)) := by
+  obtain ⟨h, h1, h2, h3, h4⟩ := Panic.wrappingShift_wf hw hn ha s
+  exact ⟨h, Shift.effAmount_of_lt, ⟨rfl, h1⟩, ⟨rfl, h2⟩, ⟨rfl, h3⟩, ⟨rfl, h4⟩⟩
+example : 1 ≤ 8 ∧ 1 ≤ 3 ∧ WF 8 3 [1, 0, 128] ∧ Shift.effAmount (8 * 3) 25 = 17 ∧
+    UI.shl false 8 [1, 0, 128] 25 = .ok [0, 0, 2] ∧ II.wrappingShr 8 [1, 0, 128] 4294967295 = [255, 255, 255] ∧
+    UI.shl true 8 [1, 0, 128] 25 = .panic := by decide
 
 /-! ## 3. division and remainder: a panic in BOTH build modes exactly for a zero divisor and, for
     `BInt`, for `MIN` with `-1` — through the operators `/`, `%` and the inherent `div`, `rem`,
